@@ -1,0 +1,73 @@
+//go:build verif
+
+package core
+
+import (
+	"fmt"
+
+	"github.com/jsightapi/jsight-api-go-library/directive"
+)
+
+// VerifDirectives returns the top-level directive list as it stands after scanning
+// (MACRO directives are removed from it once compilation starts).
+func (core *JApiCore) VerifDirectives() []*directive.Directive {
+	return core.directives
+}
+
+// VerifDirectivesWithPastes returns the top-level directive list after MACRO/PASTE expansion.
+func (core *JApiCore) VerifDirectivesWithPastes() []*directive.Directive {
+	return core.directivesWithPastes
+}
+
+// VerifMacros returns the macro table.
+func (core *JApiCore) VerifMacros() map[string]*directive.Directive {
+	return core.macro
+}
+
+// VerifScanOnly runs only the scanning stage (directive tree construction).
+func (core *JApiCore) VerifScanOnly() error {
+	if je := core.scanProject(); je != nil {
+		return je
+	}
+	return nil
+}
+
+// VerifDescription runs the description normaliser on a raw body.
+func VerifDescription(b []byte) ([]byte, error) {
+	return description(b)
+}
+
+// VerifBudgetExceeded is the panic value used when a logical-step budget is exceeded.
+type VerifBudgetExceeded struct {
+	What  string
+	Value int
+	Limit int
+}
+
+func (v VerifBudgetExceeded) Error() string {
+	return fmt.Sprintf("verif: %s budget exceeded: %d > %d", v.What, v.Value, v.Limit)
+}
+
+type verifState struct {
+	pasteDepth    int
+	pasteDepthMax int
+}
+
+// VerifPasteDepthMax returns the high-water mark of nested PASTE expansion.
+func (core *JApiCore) VerifPasteDepthMax() int {
+	return core.verif.pasteDepthMax
+}
+
+func (core *JApiCore) verifPasteEnter() {
+	core.verif.pasteDepth++
+	if core.verif.pasteDepth > core.verif.pasteDepthMax {
+		core.verif.pasteDepthMax = core.verif.pasteDepth
+	}
+	if limit := len(core.macro) + 1; core.verif.pasteDepth > limit {
+		panic(VerifBudgetExceeded{What: "paste-depth", Value: core.verif.pasteDepth, Limit: limit})
+	}
+}
+
+func (core *JApiCore) verifPasteLeave() {
+	core.verif.pasteDepth--
+}
